@@ -267,7 +267,18 @@ func (tr *fnTrans) instr(b *ssa.BasicBlock, in ssa.Instruction) {
 		}
 		tr.vals[in] = x // iterator identity; position tracked by Next
 	case *ssa.Next:
-		tr.errorf("unsupported-construct: string/map iteration in %s", tr.key)
+		if !in.IsString {
+			tr.errorf("unsupported-construct: map iteration in %s", tr.key)
+			return
+		}
+		// string iteration, modelled for safety only: each step yields some byte index inside the string and some
+		// rune (the decoding itself is not modelled)
+		str := tr.val(in.Iter)
+		ok := tr.declare(tr.fresh(tr.vname(in)+"_ok"), SBool)
+		k := tr.declare(tr.fresh(tr.vname(in)+"_k"), SInt)
+		r := tr.declare(tr.fresh(tr.vname(in)+"_r"), SInt)
+		tr.hyp(implies(and(in0, ok), and(app("<=", "0", k), app("<", k, app("slen", str.S)), app("<=", "0", r), app("<=", r, "1114111"))))
+		tr.tuples[in] = []Term{T(ok, SBool), T(k, SInt), T(r, SInt)}
 	case *ssa.MakeClosure:
 		tr.errorf("unsupported-construct: closure in %s", tr.key)
 	default:
